@@ -3,15 +3,22 @@
 // with a recording clock, on a current-thread tokio runtime.  Only the per-source Kalman filter is
 // replaced: a scripted source controller hands out the snapshot the case prescribes.
 //
-// input tokens: <min_agreeing> <max_uncertainty f64 hex> <steer 0|1> then operations
+// input tokens: <min_agreeing> <max_uncertainty f64 hex> <steer 0|1|2> then operations
+//   steer 0: steering thresholds infinite (no steering call); 1: default steering configuration;
+//         2: default thresholds but step_threshold infinite (offset corrections are always slews: the timer path)
 //   A <id>            system: add_source (two-way)          O <id>   system: add_one_way_source (periodic)
 //   M <id> <serial> <state time> <last_update> <leap> <offset> <variance> <delay>   source task: measurement
 //   U <id> <0|1>      source task: set_usable               D <id>   source task: wrapper dropped
 //   m/u/d ...         the same three messages written straight into the channel (ids without a live wrapper)
 //   R                 let `run` drain the channel, then observe
+//   T                 let (virtual) time pass beyond any armed deadline of the wrapper's sleeper: `run` drains the
+//                     channel, then -- if its sleeper is enabled -- the sleeper fires and `run` calls time_update
 // output tokens: <key(max_uncertainty)> then, in order of appearance,
 //   K <key radius> <key lo> <key hi>                         for every M/m operation
 //   R <n> <clock calls>*n <k> <used ids sorted>*k <j> (<id> <usable> <serial|-1> <state time>)*j <broadcasts>
+//     <desired_freq != 0> <updates since the last R with next_update = Some> <s> then s step records, one per
+//     source_message / time_update call of the controller since the last R, in order:
+//     <kind 0 source_message | 1 time_update> <used_sources is Some> <next_update is Some> <c> <clock calls>*c
 // clock calls: 1 disable_ntp_algorithm, 2 error_estimate_update, 30+leap status_update, 4 step_clock, 5 set_frequency
 use super::super::*;
 use crate::algorithm::kalman::matrix::{Matrix, Vector};
@@ -120,8 +127,10 @@ impl<D: Debug + Copy + Clone + Send + 'static> InternalSourceController for Scri
     }
 }
 
+type Steps = Arc<Mutex<Vec<Vec<i64>>>>;
+
 thread_local! {
-    static SHARED: std::cell::RefCell<Option<(Arc<AtomicUsize>, Arc<AtomicUsize>, Arc<Mutex<std::collections::HashMap<u64, Queue>>>)>> =
+    static SHARED: std::cell::RefCell<Option<(Arc<AtomicUsize>, Arc<AtomicUsize>, Arc<Mutex<std::collections::HashMap<u64, Queue>>>, Steps)>> =
         const { std::cell::RefCell::new(None) };
 }
 
@@ -133,9 +142,18 @@ struct Ctl {
     processed: Arc<AtomicUsize>,
     broadcasts: Arc<AtomicUsize>,
     queues: Arc<Mutex<std::collections::HashMap<u64, Queue>>>,
+    steps: Steps,
 }
 
 impl Ctl {
+    // what one controller call made visible: its clock calls and the two fields of the returned update
+    fn record(&self, kind: i64, before: usize, u: &InternalStateUpdate<KalmanControllerMessage>) {
+        let calls: Vec<i64> = self.inner.clock.log.lock().unwrap()[before..].to_vec();
+        let mut rec = vec![kind, u.used_sources.is_some() as i64, u.next_update.is_some() as i64, calls.len() as i64];
+        rec.extend(calls);
+        self.steps.lock().unwrap().push(rec);
+    }
+
     fn queue(&self, id: ClockId) -> Queue {
         let q: Queue = Arc::new(Mutex::new(VecDeque::new()));
         self.queues.lock().unwrap().insert(id.0, q.clone());
@@ -152,8 +170,8 @@ impl InternalTimeSyncController for Ctl {
     type OneWaySourceController = Scripted<()>;
 
     fn new(clock: RecClock, s: SynchronizationConfig, a: AlgorithmConfig) -> Result<Self, std::io::Error> {
-        let (processed, broadcasts, queues) = SHARED.with(|s| s.borrow().clone().unwrap());
-        Ok(Ctl { inner: KalmanClockController::new(clock, s, a)?, processed, broadcasts, queues })
+        let (processed, broadcasts, queues, steps) = SHARED.with(|s| s.borrow().clone().unwrap());
+        Ok(Ctl { inner: KalmanClockController::new(clock, s, a)?, processed, broadcasts, queues, steps })
     }
     fn take_control(&mut self) -> Result<(), std::io::Error> {
         self.inner.take_control()
@@ -185,10 +203,16 @@ impl InternalTimeSyncController for Ctl {
         self.inner.source_update(id, usable);
     }
     fn source_message(&mut self, id: ClockId, m: KalmanSourceMessage) -> InternalStateUpdate<KalmanControllerMessage> {
-        self.inner.source_message(id, m)
+        let before = self.inner.clock.log.lock().unwrap().len();
+        let u = self.inner.source_message(id, m);
+        self.record(0, before, &u);
+        u
     }
     fn time_update(&mut self) -> InternalStateUpdate<KalmanControllerMessage> {
-        self.inner.time_update()
+        let before = self.inner.clock.log.lock().unwrap().len();
+        let u = self.inner.time_update();
+        self.record(1, before, &u);
+        u
     }
 }
 
@@ -231,7 +255,12 @@ fn meas(sender: ClockId, receiver: ClockId) -> Measurement {
 
 #[test]
 fn verif_c37_driver() {
-    crate::verif_hook::drive(|t| {
+    crate::verif_hook::drive(|t| run_case(t));
+}
+
+// one case (also used by C03's driver for its controller-level cases)
+pub(crate) fn run_case(t: &[&str]) -> String {
+    {
         let sync = SynchronizationConfig { minimum_agreeing_sources: t[0].parse().unwrap(), ..Default::default() };
         let mut algo = AlgorithmConfig { maximum_source_uncertainty: f(t[1]), ..Default::default() };
         if t[2] == "0" {
@@ -239,11 +268,16 @@ fn verif_c37_driver() {
             algo.steer_offset_threshold = f64::INFINITY;
             algo.steer_frequency_threshold = f64::INFINITY;
         }
+        if t[2] == "2" {
+            // never step: every offset correction is a slew, which arms the wrapper's timer
+            algo.step_threshold = f64::INFINITY;
+        }
         let log = Arc::new(Mutex::new(Vec::new()));
         let processed = Arc::new(AtomicUsize::new(0));
         let broadcasts = Arc::new(AtomicUsize::new(0));
         let queues = Arc::new(Mutex::new(std::collections::HashMap::new()));
-        SHARED.with(|s| *s.borrow_mut() = Some((processed.clone(), broadcasts.clone(), queues.clone())));
+        let steps: Steps = Arc::new(Mutex::new(Vec::new()));
+        SHARED.with(|s| *s.borrow_mut() = Some((processed.clone(), broadcasts.clone(), queues.clone(), steps.clone())));
         let wrapper: Arc<TimeSyncControllerWrapper<Ctl>> =
             Arc::new(TimeSyncControllerWrapper::new(RecClock { log: log.clone() }, sync, algo).unwrap());
         let rt = tokio::runtime::Builder::new_current_thread().enable_time().start_paused(true).build().unwrap();
@@ -355,6 +389,26 @@ fn verif_c37_driver() {
                             write!(out, " {} {} {} {}", id, u as u8, s, tm).unwrap();
                         }
                         write!(out, " {}", broadcasts.swap(0, Ordering::SeqCst)).unwrap();
+                        let st: Vec<Vec<i64>> = std::mem::take(&mut *steps.lock().unwrap());
+                        write!(
+                            out,
+                            " {} {} {}",
+                            (ctl.inner.desired_freq != 0.0) as u8,
+                            st.iter().filter(|r| r[2] == 1).count(),
+                            st.len()
+                        )
+                        .unwrap();
+                        for r in st {
+                            for x in r {
+                                write!(out, " {}", x).unwrap();
+                            }
+                        }
+                        i += 1;
+                    }
+                    "T" => {
+                        // the paused clock only advances when every task is idle: `run` first handles what is
+                        // queued, then the clock jumps to the sleeper's deadline (if enabled), then to ours
+                        tokio::time::sleep(std::time::Duration::from_secs(100_000_000)).await;
                         i += 1;
                     }
                     other => panic!("bad op {}", other),
@@ -365,5 +419,5 @@ fn verif_c37_driver() {
             let _ = task.await;
         });
         out
-    });
+    }
 }
